@@ -170,6 +170,15 @@ def check(cx):
                        "trees (%s): aborted transactions above the tree horizon lose their flag but keep their tuples" % (sorted(src(hc)), sorted(src(hv))))
         else:
             cx.bad(r4, "one-horizon", g.where(), "Catalog::vacuum or clear_aborted_up_to not called")
+        # the coordinator's own cleanup reads the last committed id when it is called: it belongs to the same horizon only
+        # while the VACUUM transaction itself has not committed yet
+        vt = [c for c in g.calls() if c.callee == K.COORD + "::vacuum_transactions"]
+        if vt:
+            before = all(all(g.dominates(v.bb, c.bb) and v.bb != c.bb for c in cm) for v in vt) and bool(cm)
+            cx.verdict(before, r4, "coordinator-cleanup-before-commit", vt[0].where(), "vacuum_transactions runs before the VACUUM transaction commits",
+                       "vacuum_transactions runs after the VACUUM transaction committed: its cut-off (the last committed id) is then the "
+                       "VACUUM's own id, the aborted entries of sessions that were open during VACUUM are dropped and their later writes "
+                       "count as committed")
         good = bool(cm) and bool(ck) and all(any(g.dominates(c.bb, k.bb) for c in cm) for k in ck) and \
             all(any(g.dominates(v.bb, c.bb) for v in cv) for c in cm)
         cx.verdict(good, r4, "commit-then-checkpoint", g.where(), "vacuum < commit < checkpoint", "VACUUM does not end in commit + checkpoint")
